@@ -118,11 +118,22 @@ def part_rules(prog, chk, pid):
 
     arms = []
     arms_tested = []
-    for e in apps:
-        base = list(getattr(e, "facts", ()) or ()) + [(f[1], f[2]) for f in e.ctx if f[0] == "if"]
-        for c0, pre_t in alternatives(unsnap(e.d["value"]).args[0][0]):
-            for c1, data_t in alternatives(unsnap(e.d["value"]).args[0][1]):
-                for c2, post_t in alternatives(unsnap(e.d["value"]).args[0][2]):
+    # where parts come from: tuples appended to a list, or the element of a comprehension (a tuple, or a choice between tuples made by a helper's returns)
+    sources = [(e, list(getattr(e, "facts", ()) or ()) + [(f[1], f[2]) for f in e.ctx if f[0] == "if"], unsnap(e.d["value"])) for e in apps]
+    if not sources:
+        class _At:
+            def __init__(self, where):
+                self.where = where
+        for lr in ex.loops.values():
+            if lr.kind == "comp" and getattr(lr, "elt", None) is not None:
+                alts = alternatives(lr.elt)
+                if alts and all(v.op == "tuple" and len(v.args[0]) == 3 for _, v in alts):
+                    for cs, v in alts:
+                        sources.append((_At("%s:%d" % (fi.file, getattr(lr.node, "lineno", fi.lineno))), cs, v))
+    for e, base, tup in sources:
+        for c0, pre_t in alternatives(tup.args[0][0]):
+            for c1, data_t in alternatives(tup.args[0][1]):
+                for c2, post_t in alternatives(tup.args[0][2]):
                     conds = {}
                     feasible = True
                     for c, pol in base + c0 + c1 + c2:
@@ -145,11 +156,13 @@ def part_rules(prog, chk, pid):
 
         def is_key_hi(t):
             t = unsnap(t)
-            return t.op == "bin" and t.args[0] == "RShift" and is_const(t.args[2]) and cval(t.args[2]) == 8
+            # key >> 8, or key // 256 (the same for every int: both floor)
+            return t.op == "bin" and is_const(t.args[2]) and ((t.args[0] == "RShift" and cval(t.args[2]) == 8) or (t.args[0] == "FloorDiv" and cval(t.args[2]) == 256))
 
         def is_key_lo(t, hi):
             t = unsnap(t)
-            return t.op == "bin" and t.args[0] == "BitAnd" and is_const(t.args[2]) and cval(t.args[2]) == 0xFF and unsnap(t.args[1]) is unsnap(unsnap(hi).args[1])
+            # key & 0xFF, or key % 256
+            return t.op == "bin" and is_const(t.args[2]) and ((t.args[0] == "BitAnd" and cval(t.args[2]) == 0xFF) or (t.args[0] == "Mod" and cval(t.args[2]) == 256)) and unsnap(t.args[1]) is unsnap(unsnap(hi).args[1])
 
         def pre_ok(pre, op):
             return len(pre) == 3 and pre[0] == ("const", bytes([op])) and pre[1][0] == "int" and pre[1][1] == 1 and is_key_hi(pre[1][2]) and pre[2][0] == "int" and is_key_lo(pre[2][2], pre[1][2])
@@ -197,14 +210,26 @@ def part_rules(prog, chk, pid):
         r = rel(b.d["cond"], True)
         # `len(...) > T` closes a block as soon as it would exceed T bytes, `len(...) >= T` as soon as it would exceed T - 1: any bound of at most 117 keeps the property
         # (the documented limit is a maximum; splitting earlier only produces more, smaller blocks)
-        if r[0] == "rel" and r[1] in ("Lt", "LtE") and is_const(r[2]) and isinstance(cval(r[2]), int) and unsnap(r[3]).op == "len":
+        def len_sum(t):
+            """operands x1..xn if t is len(x1) + ... + len(xn) (the length of their concatenation), else None"""
+            t = unsnap(t)
+            if t.op == "len":
+                return [t.args[0]]
+            if t.op == "bin" and t.args[0] == "Add":
+                a_, b_ = len_sum(t.args[1]), len_sum(t.args[2])
+                return a_ + b_ if a_ is not None and b_ is not None else None
+            return None
+
+        if r[0] == "rel" and r[1] in ("Lt", "LtE") and is_const(r[2]) and isinstance(cval(r[2]), int) and len_sum(r[3]) is not None:
             bound = cval(r[2]) if r[1] == "Lt" else cval(r[2]) - 1
             if 1 <= bound <= 117:
-                found = (b, unsnap(r[3]).args[0])
+                found = (b, len_sum(r[3]))
     ok = found is not None
     why = "no split test in the merge loop that closes a block before it would exceed 117 bytes"
     if ok:
-        segs = w.flatten(found[1])
+        segs = []
+        for x_ in found[1]:
+            segs += w.flatten(x_)
         names = [canon(s[1]) if s[0] == "opaque" else s[0] for s in segs]
         # current block, pending postface, preface, data, postface of the entry
         ok = len(segs) == 5 and all(s[0] == "opaque" for s in segs)
